@@ -51,6 +51,10 @@ type C13Scenario struct {
 	// after the server's 354: the first write of the content fails. Their call must fail and
 	// return, nothing of their message is committed, nobody else notices.
 	BreakData []int `json:"breakData,omitempty"`
+	// RefuseData lists senders (with a connection of their own) whose DATA command the server
+	// refuses (554) after accepting MAIL and RCPT: their call fails, their clean-up stays on
+	// their own connection, nobody else notices.
+	RefuseData []int `json:"refuseData,omitempty"`
 }
 
 type c13 struct{}
@@ -103,6 +107,11 @@ func (p *c13) Gen(seed uint64, i int, tier string) (any, bool) {
 	if r.Chance(1, 5) {
 		for k := 0; k < 1+r.Intn(2); k++ {
 			sc.BreakData = append(sc.BreakData, r.Intn(sc.N))
+		}
+	}
+	if r.Chance(1, 5) {
+		for k := 0; k < 1+r.Intn(2); k++ {
+			sc.RefuseData = append(sc.RefuseData, r.Intn(sc.N))
 		}
 	}
 	return sc, true
@@ -243,6 +252,11 @@ func (p *c13) Exec(t *testing.T, scAny any) Outcome {
 		for _, i := range sc.FailProducer {
 			if private(i) {
 				failing[i] = true
+			}
+		}
+		for _, i := range sc.RefuseData {
+			if private(i) {
+				scfg.Rules = append(scfg.Rules, refsmtpd.Rule{Verb: "DATA", FromContains: fmt.Sprintf("sender-g%d@", i), Action: refsmtpd.Action{Code: 554, Text: "transaction failed"}})
 			}
 		}
 		for _, i := range sc.BreakData {
@@ -388,6 +402,15 @@ func (p *c13) Exec(t *testing.T, scAny any) Outcome {
 			out.stat("fault.fired.failing_body_writer", 1)
 		}
 		refused[i] = true // same expectation: the call fails and nothing is committed
+	}
+	for _, i := range sc.RefuseData {
+		if !private(i) {
+			continue
+		}
+		if !refused[i] {
+			out.stat("fault.fired.data_refused", 1)
+			refused[i] = true
+		}
 	}
 	for _, i := range sc.BreakData {
 		if !private(i) {
